@@ -82,6 +82,8 @@ impl State {
         // TODO: Delete metrics when they are idle. (This needs support in the handles before we could do this.)
 
         let counters = self.registry.get_counter_handles();
+        #[cfg(metrics_verif)]
+        let counters = metrics::__verif::det::sorted(counters);
         let mut active_counters = 0;
 
         for (key, counter) in counters {
@@ -131,6 +133,8 @@ impl State {
         telemetry.increment_counter_contexts(active_counters);
 
         let gauges = self.registry.get_gauge_handles();
+        #[cfg(metrics_verif)]
+        let gauges = metrics::__verif::det::sorted(gauges);
         telemetry.increment_gauge_contexts(gauges.len());
 
         for (key, gauge) in gauges {
@@ -158,6 +162,8 @@ impl State {
         }
 
         let histograms = self.registry.get_histogram_handles();
+        #[cfg(metrics_verif)]
+        let histograms = metrics::__verif::det::sorted(histograms);
         let mut active_histograms = 0;
 
         for (key, histogram) in histograms {
